@@ -1,4 +1,4 @@
 SPECIFICATION Spec
-CONSTANT StrictProps = {"C11"}
+CONSTANT StrictProps = {"C02", "C03", "C04"}
 POSTCONDITION Accepted
 CHECK_DEADLOCK FALSE
